@@ -339,6 +339,13 @@ func corpus() []geom.Geom {
 		&geom.Bounds{Min: P(0, 0), Max: P(1, 1)}, &geom.Bounds{Min: P(-inf, 0), Max: P(inf, 0)},
 		geom.NewBounds(), &geom.Bounds{Min: P(2, 0), Max: P(1, 1)},
 		geom.GeometryCollection{nil}, geom.GeometryCollection{P(1, 1), nil},
+		// nil members behind vertices / behind empty members / at depth (C04_nil_points_prefix, C04_nil_points_fault)
+		geom.GeometryCollection{P(1, 2), geom.MultiPoint{}, nil, P(3, 4)},
+		geom.GeometryCollection{geom.GeometryCollection{P(1, 2), nil}, P(3, 4)},
+		geom.GeometryCollection{L(P(1, 2), P(3, 4), P(5, 6)), geom.GeometryCollection{}, geom.GeometryCollection{geom.MultiPoint{}, nil}, P(7, 8)},
+		geom.GeometryCollection{geom.MultiPoint{}, geom.Polygon{{}}, nil},
+		geom.GeometryCollection{geom.GeometryCollection{P(1, 2), P(3, 4)}, geom.GeometryCollection{geom.GeometryCollection{nil}}},
+		geom.GeometryCollection{&geom.Bounds{Min: P(0, 0), Max: P(1, 2)}, geom.NewBounds(), nil},
 		longRuns(0), longRuns(1), longRuns(2), longRuns(3),
 	}
 	// member / vertex counts around typical size thresholds, at exactly one nesting level
@@ -635,6 +642,16 @@ func runGeom(g geom.Geom) string {
 	var got []geom.Point
 	if n < 0 {
 		res.WriteString(" pts nolen")
+		// Len() panicked (a nil member): what does the iterator hand out before it reaches the nil member?  Drained
+		// until it panics (compared with the model: C04_nil_points_prefix / C04_nil_points_fault)
+		var pre []geom.Point
+		vproto.Safe(func() {
+			it := g.Points()
+			for i := 0; i < 1<<16; i++ {
+				pre = append(pre, it())
+			}
+		})
+		res.WriteString(" drained " + ptsStr(pre))
 	} else {
 		pan := vproto.Safe(func() {
 			it := g.Points()
